@@ -111,7 +111,7 @@ OpenRetViol(e) ==
 
 CmdRetViol(e) ==
   Check("C05", "no-panic-no-hang", ~Has(e, "panic") /\ ~Has(e, "hang"))
-  \cup (IF Has(e, "panic") \/ Has(e, "hang") \/ ~Has(e, "err") THEN {}
+  \cup (IF Has(e, "panic") \/ Has(e, "hang") \/ ~Has(e, "err") THEN Check("C01", "response-returned-to-caller", FALSE)
         ELSE Check("C01", "response-returned-to-caller",
                    ~e.err /\ e.code = e.exp.code /\ Has(e, "value") /\ e.value.data = e.exp.data))
 
